@@ -16,8 +16,8 @@ HERE = os.path.dirname(os.path.dirname(os.path.abspath(__file__)))
 MUTANTS = {
     "C08": [
         ("loop-min", "src/pdsh/dsh.c", "            if (t[i].rc > rc)\n", "            if (t[i].rc < rc)\n"),
-        ("loop-skips-first", "src/pdsh/dsh.c", "        for (i = 0; t[i].host != NULL; i++) {\n            if (t[i].state == DSH_FAILED",
-         "        for (i = 1; t[i].host != NULL; i++) {\n            if (t[i].state == DSH_FAILED"),
+        ("loop-skips-first", "src/pdsh/dsh.c", "        for (i = 0; t[i].host != NULL; i++) {\n            if ((t[i].state == DSH_FAILED",
+         "        for (i = 1; t[i].host != NULL; i++) {\n            if ((t[i].state == DSH_FAILED"),
         ("rc-failed-253", "src/pdsh/opt.h", "#define RC_FAILED\t254", "#define RC_FAILED\t253"),
         ("destroy-overrides-marker", "src/pdsh/dsh.c", "    rv = rcmd_destroy (a->rcmd);\n    if ((a->rc == 0) && (rv > 0))",
          "    rv = rcmd_destroy (a->rcmd);\n    if (rv > 0)"),
@@ -34,7 +34,7 @@ MUTANTS = {
          "    { int i_, r_ = 0; for (i_ = 0; i_ < 50 && (r_ = waitpid (p->pid, &status, WNOHANG)) == 0; i_++) usleep (10000);\n"
          "      if (r_ == 0) status = 0; }\n    if (0)\n"),
         ("marker-skips-digit", "src/pdsh/dsh.c", "        ret = atoi(p + strlen(RC_MAGIC));", "        ret = atoi(p + strlen(RC_MAGIC) + 1);"),
-        ("failed-overwrites-again", "src/pdsh/dsh.c", "            if (t[i].state == DSH_FAILED && rc < RC_FAILED)", "            if (t[i].state == DSH_FAILED)"),
+        ("failed-overwrites-again", "src/pdsh/dsh.c", "                && rc < RC_FAILED)\n                rc = RC_FAILED;", "                )\n                rc = RC_FAILED;"),
         ("late-line-resets-again", "src/pdsh/dsh.c", "            if (read_rc && strstr (buf, RC_MAGIC))", "            if (read_rc)"),
         # round 2: position / flag / boundary classes
         ("loop-skips-last", "src/pdsh/dsh.c", "        for (i = 0; t[i].host != NULL; i++) {\n            if ((t[i].state == DSH_FAILED",
@@ -48,6 +48,7 @@ MUTANTS = {
          "            if ((t[i].state == DSH_FAILED)"),
         ("failed-only-if-rc0", "src/pdsh/dsh.c", "                && rc < RC_FAILED)\n                rc = RC_FAILED;",
          "                && rc < RC_FAILED && t[i].rc == 0)\n                rc = RC_FAILED;"),
+        ("marker-only-with-S", "src/pdsh/dsh.c", "    if (opt->kill_on_fail || opt->ret_remote_rc)\n        opt->getstat", "    if (opt->ret_remote_rc)\n        opt->getstat"),
         ("S-with-k-returns-0", "src/pdsh/dsh.c", "    if (opt->ret_remote_rc) {\n        for (i = 0; t[i].host", "    if (opt->ret_remote_rc && !opt->kill_on_fail) {\n        for (i = 0; t[i].host"),
     ],
     "C18": [
